@@ -12,6 +12,7 @@ import (
 	"fmt"
 	"os"
 	"runtime"
+	"runtime/debug"
 	"sort"
 	"strconv"
 	"strings"
@@ -36,10 +37,10 @@ const (
 	errCanceled errKind = iota
 	errDeadline
 	errCustom
-	errStd      // a real context.WithCancel, cancelled by the simulator
-	errStdCause // a real context.WithCancelCause: Err() is Canceled, Cause() is something else
-	errStdChild // a value-carrying child of a real cancellable context (cancellation arrives by propagation)
-	errStdPast  // a real context.WithDeadline whose deadline has passed (fires only before the parse)
+	errStd               // a real context.WithCancel, cancelled by the simulator
+	errStdCause          // a real context.WithCancelCause: Err() is Canceled, Cause() is something else
+	errStdChild          // a value-carrying child of a real cancellable context (cancellation arrives by propagation)
+	errStdPast           // a real context.WithDeadline whose deadline has passed (fires only before the parse)
 	errStdFutureDeadline // a real context.WithTimeout(1h), cancelled explicitly long before it expires
 	numErrKinds
 )
@@ -188,6 +189,7 @@ func (c *simCtx) Deadline() (time.Time, bool) {
 }
 
 var farFuture = time.Date(2200, 1, 1, 0, 0, 0, 0, time.UTC)
+
 func (c *simCtx) Value(key any) any {
 	if c.std != nil {
 		return c.std.Value(key) // lets context.Cause find the underlying cancelCtx
@@ -225,12 +227,12 @@ type itemAcc struct {
 }
 
 type recorder struct {
-	ctx      *simCtx
+	ctx *simCtx
 	// bounded-stop oracle: the items of the input (sorted by offset) and, per item, the
 	// signature of the events reported inside it so far. An intact item whose events are
 	// exactly those of an undamaged parse was parsed normally: all its tokens were shifted.
-	items []itemSpan
-	acc   map[int]*itemAcc
+	items    []itemSpan
+	acc      map[int]*itemAcc
 	ref      []event // nil in the reference run
 	ev       []event // filled in the reference run only
 	n        int
@@ -389,6 +391,9 @@ func safeParse(t *Target, ctx context.Context, input string, rec *recorder) (val
 	defer func() {
 		if r := recover(); r != nil {
 			panicked = fmt.Sprint(r)
+			if os.Getenv("ZZ_CANCELSIM_REFPANIC") != "" {
+				panicked += fmt.Sprintf(" input=%.300q stack=%s", input, debug.Stack())
+			}
 		}
 	}()
 	val, err = t.Parse(ctx, input, rec)
@@ -507,6 +512,10 @@ func (engine) Run(src *sim.Src, log *sim.Log, res *sim.Result) {
 		// The parser panics on this input with no cancellation involved: outside this
 		// property (that is error-recovery / language-equivalence territory). Counted.
 		res.Skipped = "parser panics without cancellation: " + t.Name
+		if os.Getenv("ZZ_CANCELSIM_REFPANIC") != "" { // investigation aid, never set by the checks
+			res.Skipped = ""
+			res.Fail("C29.debug", "reference-panic:"+t.Name, "target %s: uncancelled parse panicked: %s", t.Name, rpanic)
+		}
 		log.Printf("reference run panicked: %s", rpanic)
 		return
 	}
